@@ -57,8 +57,10 @@ Definition pad_eqb (a b : option (Z * Z)) : bool :=
   | Some (n, d), Some (n', d') => n * d' =? n' * d
   | _, _ => false
   end.
+Definition active_close (a b : Q * Q * Q * Q) : bool :=
+  let '(l, t, w, h) := a in let '(l', t', w', h') := b in q_close l l' && q_close t t' && q_close w w' && q_close h h'.
 Definition doc_eqb (a b : sdoc) : bool :=
-  text_eqb (d_lang a) (d_lang b) && (d_cols a =? d_cols b) && (d_rows a =? d_rows b) &&
+  text_eqb (d_lang a) (d_lang b) && (d_cols a =? d_cols b) && (d_rows a =? d_rows b) && active_close (d_active a) (d_active b) &&
   Bool.eqb (d_fill_line_gap a) (d_fill_line_gap b) && pad_eqb (d_line_padding a) (d_line_padding b) &&
   list_eqb font_eqb (d_fonts a) (d_fonts b) && list_eqb region_close (d_regions a) (d_regions b) &&
   list_eqb (list_eqb para_eqb) (d_divs a) (d_divs b).
@@ -74,10 +76,12 @@ Definition outcome_eqb (a b : outcome) : bool :=
   | _, _ => false
   end.
 
-(* one case: the file, the configuration and what the implementation returned *)
-Definition case := (list Z * config * outcome)%type.
+(* one case: the file, the configuration, what the implementation returned and the values it passed to the progress
+   callback (binary floating point: compared up to 1e-9) *)
+Definition case := (list Z * config * outcome * list Q)%type.
 Definition case_model (c : case) : bool :=
-  let '(f, cfg, out) := c in outcome_eqb (reader_model (unrle f) cfg) out.
+  let '(f, cfg, out, prog) := c in
+  outcome_eqb (reader_model (unrle f) cfg) out && list_eqb q_close (progress_model (unrle f) cfg) prog.
 (* text-field cases: (teletext, cct, tf, leaves returned by tf.to_model) *)
 Definition tf_case := (bool * list Z * list Z * list leaf)%type.
 Definition tf_case_model (c : tf_case) : bool :=
@@ -94,28 +98,6 @@ Definition piece_eqb (a b : piece) : bool :=
   end.
 Definition part_eqb (a b : part) : bool :=
   Qeq_bool (pt_begin a) (pt_begin b) && Qeq_bool (pt_end a) (pt_end b) && list_eqb piece_eqb (pt_text a) (pt_text b).
-Definition align_code (a : alignment) : Z := match a with AlignStart => 0 | AlignCenter => 1 | AlignEnd => 2 end.
-
-Fixpoint leaves_of_items (its : list pitem) : option (list leaf) :=
-  match its with
-  | [] => Some []
-  | PLeaf l :: r => match leaves_of_items r with Some ls => Some (l :: ls) | None => None end
-  | PSub _ _ _ :: _ => None
-  end.
-Fixpoint parts_of_subs (its : list pitem) : option (list part) :=
-  match its with
-  | [] => Some []
-  | PSub b e ls :: r => match parts_of_subs r with Some ps => Some (mkPart b e (map piece_of_leaf ls) :: ps) | None => None end
-  | PLeaf _ :: _ => None
-  end.
-(* a paragraph of the document as timed parts: either the paragraph itself is timed and holds the runs, or it
-   holds timed spans only *)
-Definition parts_of_para (p : para) : option (list part) :=
-  match p_time p with
-  | Some (b, e) => match leaves_of_items (p_items p) with Some ls => Some [mkPart b e (map piece_of_leaf ls)] | None => None end
-  | None => parts_of_subs (p_items p)
-  end.
-
 Definition rect_close (r : region) (s : rect) : bool :=
   q_close (r_x r) (x0 s) && q_close (r_y r) (y0 s) && q_close (r_w r) (width s) && q_close (r_h r) (height s) &&
   Bool.eqb (r_after r) (align_after s).
@@ -140,25 +122,6 @@ Fixpoint list_rel {A B} (f : A -> B -> bool) (a : list A) (b : list B) : bool :=
   | _, _ => false
   end.
 
-(* "hh:mm:ss:ff" *)
-Definition label_of_text (t : text) : option label :=
-  match t with
-  | [a; b; 58; c; d; 58; e; f; 58; g; h] =>
-      match two_digit a b, two_digit c d, two_digit e f, two_digit g h with
-      | Some hh, Some mm, Some ss, Some ff => Some (hh, mm, ss, ff)
-      | _, _, _, _ => None
-      end
-  | _ => None
-  end.
-Definition spec_start (c : start_tc) : option start_cfg :=
-  match c with
-  | StNone => Some StartNone
-  | StTCP => Some StartTCP
-  | StStr t => match label_of_text t with Some l => Some (StartLabel l) | None => None end
-  end.
-Definition spec_rows (c : max_rows_cfg) : rows_cfg :=
-  match c with MrNone => RowsDefault | MrMNR => RowsMNR | MrInt n => RowsInt n end.
-
 (* 0: the input is outside the specification's domain; 1: the output is what S prescribes; 2: it is not *)
 Definition spec_verdict (file : list Z) (cfg : config) (out : outcome) : Z :=
   match spec_start (cf_start cfg) with
@@ -176,19 +139,44 @@ Definition spec_verdict (file : list Z) (cfg : config) (out : outcome) : Z :=
 
 (* per case: bit 0 M = code, bits 1-2 S verdict, then the trigger mask *)
 Definition case_verdict (c : case) : Z :=
-  let '(f, cfg, out) := c in
+  let '(f, cfg, out, prog) := c in
   let file := unrle f in
-  (if outcome_eqb (reader_model file cfg) out then 1 else 0) + 2 * spec_verdict file cfg out + 8 * trigger_mask file cfg.
+  (if outcome_eqb (reader_model file cfg) out && list_eqb q_close (progress_model file cfg) prog then 1 else 0) +
+  2 * spec_verdict file cfg out + 8 * trigger_mask file cfg.
 
-(* text-field cases against S: 0 excused by a trigger, 1 ok, 2 not *)
+(* configuration cases: what STLReaderConfiguration.parse made of a program_start_tc / max_row_count value *)
+Definition start_eqb (a b : start_tc) : bool :=
+  match a, b with
+  | StNone, StNone | StTCP, StTCP => true
+  | StStr t, StStr u => text_eqb t u
+  | _, _ => false
+  end.
+Definition rows_eqb (a b : max_rows_cfg) : bool :=
+  match a, b with
+  | MrNone, MrNone | MrMNR, MrMNR => true
+  | MrInt n, MrInt m => n =? m
+  | _, _ => false
+  end.
+Definition cfg_start_case (c : option text * (start_tc + error)) : bool :=
+  match decode_start_tc (fst c), snd c with
+  | inl a, inl b => start_eqb a b
+  | inr a, inr b => error_eqb a b
+  | _, _ => false
+  end.
+Definition cfg_rows_case (c : option cfg_value * (max_rows_cfg + error)) : bool :=
+  match decode_max_row_count (fst c), snd c with
+  | inl a, inl b => rows_eqb a b
+  | inr a, inr b => error_eqb a b
+  | _, _ => false
+  end.
+
+(* text-field cases against S: 1 ok, 2 not *)
 Definition tf_case_spec (c : tf_case) : Z :=
   let '(tele, cct, tf, out) := c in
-  if list_eqb piece_eqb (map piece_of_leaf out) (tf_spec (decoder_spec cct) tele tf) then 1
-  else if trigger_blank_row tf || trigger_a4_cct cct tf then 0 else 2.
+  if list_eqb piece_eqb (map piece_of_leaf out) (tf_spec (decoder_spec cct) tele tf) then 1 else 2.
 Definition tf_case_verdict (c : tf_case) : Z := (if tf_case_model c then 1 else 0) + 2 * tf_case_spec c.
 
-(* ISO 6937 cases: (bytes, what iso6937.decode returned): bit 0 M = code; then 0 excused by iso6937-a4, 1 S ok, 2 not *)
+(* ISO 6937 cases: (bytes, what iso6937.decode returned): bit 0 M = code; then 1 S ok, 2 not *)
 Definition iso_case_verdict (c : list Z * text) : Z :=
   let '(k, v) := c in
-  (if text_eqb (decode6937 k) v then 1 else 0) +
-  2 * (if text_eqb (decode_iso6937 k) v then 1 else if trigger_a4 k then 0 else 2).
+  (if text_eqb (decode6937 k) v then 1 else 0) + 2 * (if text_eqb (decode_iso6937 k) v then 1 else 2).
